@@ -8,7 +8,7 @@ import re
 from . import core
 
 SYMTEXT = {"LF": "\\n", "CR": "\\r", "TAB": "\\t", "NBSP": "<NBSP>", "TSP": "<TSP>", "W2": "<NBSP>", "W3": "<TSP>",
-           "E2": "é", "L2": "é", "P3": "—", "E4": "😀", "BS": "\\\\", "DEG": "º", "QUOTE": '"'}
+           "E2": "é", "U2": "É", "L2": "é", "P3": "—", "E4": "😀", "BS": "\\\\", "DEG": "º", "QUOTE": '"'}
 
 
 def syms_text(syms):
@@ -16,18 +16,22 @@ def syms_text(syms):
 
 
 SYMRAW = {"GAP": "", "NSP": " ", "LF": "\n", "CR": "\r", "TAB": "\t", "NBSP": " ", "TSP": " ", "W2": " ", "W3": " ",
-          "E2": "é", "L2": "é", "P3": "—", "E4": "😀", "BS": "\\", "DEG": "º", "QUOTE": '"', "SP": " "}
+          "E2": "é", "U2": "É", "L2": "é", "P3": "—", "E4": "😀", "BS": "\\", "DEG": "º", "QUOTE": '"', "SP": " "}
 
 
 def syms_raw(syms):
     return "".join(SYMRAW.get(s, s) for s in syms)
 
 
-def lexer_corpus(ctx, cfgs):
-    """exhaustive short-string corpus = finished behaviours of MC_Lexer (with predicted tokens)"""
+def lexer_corpus(ctx, cfgs, cap=None):
+    """exhaustive short-string corpus = finished behaviours of MC_Lexer (with predicted tokens); at the thorough tier TLC
+    still explores every string, the replay into the library is hash-sampled to `cap` per configuration (each record is
+    parsed under several extension sets and held by the recorder, the judge and the driver)"""
     recs = []
+    if cap is None and getattr(ctx, "tier", "quick") == "thorough":
+        cap = 250000
     for cfg in cfgs:
-        r = core.run_tlc(ctx, "MC_Lexer", cfg, workers=8, timeout=3000)
+        r = core.run_tlc(ctx, "MC_Lexer", cfg, workers=8, timeout=3000, max_replay=cap)
         ctx.model_violation(r)
         recs += [dict(input=x["input"], ptoks=x["toks"], src="lexer:" + cfg) for x in r.replay]
     return recs
@@ -155,6 +159,10 @@ def label_corpus(maxlead=4):
                 t = "---\n" + "".join(ls) + k + "---\nstep\n"
                 out.append(dict(text=t, src="labels"))
                 out.append(dict(text=t.replace("\n", "\r\n"), src="labels"))
+    for t in [">> prep time: 1 m\n>> time: 2 m\nstep\n", ">> time: 1 m\n>> cook time: 2 m\n>> prep time: 3 m\n", ">> cook time: 5\n\nstep\n\n>> time: 1h\n",
+              ">> t\u00e9: x\n>> prep time: 1 m\n>> time: 2 m\n"]:
+        out.append(dict(text=t, src="labels"))
+        out.append(dict(text=t.replace("\n", "\r\n"), src="labels"))
     blanks = ["", " ", "  ", "\t", " \t ", "\u3000", "\u00a0 ", " x", "x ", " x  ", " \u00e9 "]
     for key in ["servings", "time", "prep time", "cook time", "locale", "tags", "author", "source", "[mode]", "[duplicate]", "[define]",
                 "[auto scale]", "title", "k"]:
@@ -185,7 +193,9 @@ def specials_corpus():
 
 REPEATABLE = [">> k%d: v\n", "@a{%d}\n\n", "@&a{%d}\n", "= s%d\n", "@a%d @b ", "> t%d\n\n", "-- c%d\n", "[- c%d -] ",
               "@a{%d%%kg}(n) ", "~t{%d%%min} ", "#p%d{} ", "\\%d", "@&(~%d)x{} \n\n", ">> time: %dm\n", "@x|y%d{} ",
-              ">> [mode]: steps\n@q%d\n", "%d ºC ", "@a{%d-9}", "k%d: v\n"]
+              ">> [mode]: steps\n@q%d\n", "%d ºC ", "@a{%d-9}", "k%d: v\n",
+              # the same wording again and again (no %d): adjacent events that are equal but for their position
+              "> Stir well\n", "Tag @ me ", "@a{1} ", "word ", "~{5%%min} ", "#p "]
 
 
 def repetition_corpus():
@@ -193,7 +203,7 @@ def repetition_corpus():
     out = []
     for unit in REPEATABLE:
         for k in list(range(1, 13)) + [16, 33, 64, 100]:
-            t = "".join(unit % i for i in range(1, k + 1))
+            t = "".join((unit % i) if "%d" in unit else unit for i in range(1, k + 1))
             out.append(dict(text=t, src="repeat"))
             out.append(dict(text="@a{1}\n\n" + t, src="repeat"))
             if unit.startswith("k%d"):
@@ -349,7 +359,7 @@ def meta_boundary_corpus():
     return out
 
 
-QB_VALUES = ["0", "0.0000001", "1/3", "0.33", "3", "2 1/2", "99999", "4000000001", "1e300", "179769313486231570" + "0" * 290, "1" + "0" * 400,
+QB_VALUES = ["32767", "32768", "40000", "65535", "65536", "0", "0.0000001", "1/3", "0.33", "3", "2 1/2", "99999", "4000000001", "1e300", "179769313486231570" + "0" * 290, "1" + "0" * 400,
              "0.5-3", "3-0.5", "1-1" + "0" * 305, "some", "1/0", "0/1", "4294967296/3", "1 4294967296/7"]
 QB_UNITS = ["", "ml", "l", "vat", "tsp", "c", "cups", "dr", "g", "kg", "oz", "lb", "C", "\u00baF", "s", "min", "h", "d", "ae", "bag", "big vat"]
 
@@ -363,9 +373,24 @@ def quantity_boundary_corpus():
         for u in QB_UNITS:
             q = v + ("%" + u if u else "")
             out.append(dict(text=f"@a{{{q}}} and @&a{{{q}}} then @a{{1%{u or 'g'}}} ~t{{{q}}} #p{{{v}}}\n", src="qb"))
+            if u == "" and " " not in v and "/" not in v and "-" not in v and "." not in v:
+                # the same digits as the target of an intermediate reference, in its four forms
+                out.append(dict(text=f"@a{{1}}\n\n@&({v})a{{}} @&(~{v})a{{}} then\n\n= s\n@&(={v})a{{}} @&(=~{v})a{{}}\n", src="qb"))
             if " " not in v and "/" not in v and u:
                 out.append(dict(text=f">> servings: 2|4\n>> time: {v} {u}\nHeat to {v} {u} and {v}{u}. @b{{=%{u}}} @b{{{q}}}\n", src="qb"))
     return out
+
+
+def _calls(ctx, argv, pout):
+    """runs the `calls` recorder; a call that does not return within the watchdog limit ends the recorder (exit 3) and
+    leaves one record with timeout = true, which the judge rejects (NoHang) - it is data, not a tool error"""
+    try:
+        core.run_harness(ctx, argv)
+    except core.ToolError:
+        if os.path.exists(pout + ".timeout"):
+            os.replace(pout + ".timeout", pout)
+        else:
+            raise
 
 
 def check_c03(ctx):
@@ -380,8 +405,8 @@ def check_c03(ctx):
     poutb = os.path.join(ctx.work, "callsb.ndjson")
     core.write_ndjson(pinb, meta_boundary_corpus())
     core.write_ndjson(os.path.join(ctx.work, "programs.ndjson"), programs)
-    core.run_harness(ctx, ["calls", "--in", pinb, "--programs", os.path.join(ctx.work, "programs.ndjson"), "--out", poutb, "--ext", "none,all",
-                           "--conv", "e,b", "--fixed", str(len(programs))])
+    _calls(ctx, ["calls", "--in", pinb, "--programs", os.path.join(ctx.work, "programs.ndjson"), "--out", poutb, "--ext", "none,all",
+                 "--conv", "e,b", "--fixed", str(len(programs))], poutb)
     # amounts at the edges of f64 / u32 in every unit of a converter at the edges of what a units file may say, and the
     # documents CookDoc writes (references with text / numeric / no quantity, modes, intermediate references, defects)
     from .p_doc import gen_docs, text_of
@@ -389,8 +414,8 @@ def check_c03(ctx):
     for cfg, k in [("MC_Doc_sim_ext.cfg", 300 if quick else 4000), ("MC_Doc_sim_canon.cfg", 150 if quick else 2000), ("MC_Doc_cw2.cfg", None)]:
         walks += [dict(text=text_of(d), src="cookdoc") for d in (gen_docs(ctx, cfg, simulate=k) if k else gen_docs(ctx, cfg, max_n=3000 if quick else 30000))]
     core.write_ndjson(pinb + ".q", quantity_boundary_corpus() + walks)
-    core.run_harness(ctx, ["calls", "--in", pinb + ".q", "--programs", os.path.join(ctx.work, "programs.ndjson"), "--out", poutb + ".q",
-                           "--ext", "all,compat", "--conv", "x,b", "--fixed", str(len(programs))])
+    _calls(ctx, ["calls", "--in", pinb + ".q", "--programs", os.path.join(ctx.work, "programs.ndjson"), "--out", poutb + ".q",
+                 "--ext", "all,compat", "--conv", "x,b", "--fixed", str(len(programs))], poutb + ".q")
     pin = os.path.join(ctx.work, "in.ndjson")
     pprog = os.path.join(ctx.work, "programs.ndjson")
     pout = os.path.join(ctx.work, "calls.ndjson")
@@ -415,8 +440,8 @@ def check_c03(ctx):
     pin2 = os.path.join(ctx.work, "in2.ndjson")
     pout2 = os.path.join(ctx.work, "calls2.ndjson")
     core.write_ndjson(pin2, [dict(input=x, src="parser-kernels") for x in kin])
-    core.run_harness(ctx, ["calls", "--in", pin2, "--programs", pprog, "--out", pout2, "--ext", "2,1770,3786,3298,64,2730",
-                           "--conv", "b", "--fixed", "2", "--rotate", "1"])
+    _calls(ctx, ["calls", "--in", pin2, "--programs", pprog, "--out", pout2, "--ext", "2,1770,3786,3298,64,2730",
+                 "--conv", "b", "--fixed", "2", "--rotate", "1"], pout2)
     obs2 = core.read_ndjson(pout2)
     n2, bad2, _ = core.run_judge(ctx, "Trace_Api", pout2)
     obs3 = core.read_ndjson(poutb)
@@ -454,7 +479,7 @@ def check_c03(ctx):
         ctx.sample(dict(input=syms_text(x["input"])[:160], calls=[c["c"] + ":" + c["st"] for c in x["calls"]][:20]))
     ctx.assumptions = ["TLC and the CommunityModules JSON reader are trusted",
                        "catch_unwind observes every panic (the harness is built with debug assertions and overflow checks on)",
-                       "a call is a hang if it does not return within 10 s"]
+                       "a call sequence on one input is a hang if it does not return within 60 s"]
 
 
 def replay_c03(ctx, case):
